@@ -7,6 +7,7 @@ import (
 
 	codectypes "github.com/cosmos/cosmos-sdk/codec/types"
 	sdk "github.com/cosmos/cosmos-sdk/types"
+	"github.com/ethereum/go-ethereum/common"
 
 	clienttypes "github.com/bianjieai/tibc-go/modules/tibc/core/02-client/types"
 	routingtypes "github.com/bianjieai/tibc-go/modules/tibc/core/26-routing/types"
@@ -170,7 +171,11 @@ func aclScenario(w *world.World, rng *rand.Rand, rec *mon.Recorder, nClients int
 				judge("upgrade", s, "same-type", a, s.isGov, nil)
 				// other client type
 				before := clientBytes(o.Name)
-				bcs := &bsctypes.ClientState{Header: bsctypes.Header{Height: clienttypes.NewHeight(0, 200), Difficulty: 2, Extra: make([]byte, 97)}, ChainId: 56, Epoch: 200, BlockInteval: 3, TrustingPeriod: 1000}
+				bcs := &bsctypes.ClientState{Header: bsctypes.Header{Height: clienttypes.NewHeight(0, 200), Difficulty: 2, Extra: make([]byte, 97),
+					UncleHash: common.HexToHash("0x1dcc4de8dec75d7aab85b567b6ccd41ad312451b948a7413f0a142fd40d49347").Bytes()}, ChainId: 56, Epoch: 200, BlockInteval: 3, TrustingPeriod: 1000}
+				if err := bcs.Validate(); err != nil {
+					rec.Inconclusive("the other-type client state used as payload is not even well-formed: " + err.Error())
+				}
 				b1, _ := clienttypes.PackClientState(bcs)
 				b2, _ := clienttypes.PackConsensusState(&bsctypes.ConsensusState{Timestamp: 1, Number: clienttypes.NewHeight(0, 200), Root: make([]byte, 32)})
 				m2 := &clienttypes.MsgUpgradeClient{Title: "t", Description: "d", ChainName: o.Name, ClientState: b1, ConsensusState: b2, Authority: s.authority(X)}
